@@ -40,6 +40,20 @@ class C18(common.Spec):
                 def _event(self, etype, data):
                     delivered.append((loop.vt_us, etype, dict(data), next(seqno)))
             dest = Dest('dest')
+            holder = {}
+
+            class Early(edzed.AddonMainTask, edzed.SBlock):
+                """created before the Repeat blocks; the first step of its main task - before any other
+                task of the circuit has run - sends the first event"""
+                def init_regular(self):
+                    self.set_output(0)
+
+                async def _maintask(self):
+                    if 'ev' in holder:
+                        holder['ev'].send(self, tag=900, extra='x900')
+                    await asyncio.Event().wait()
+            if len(case['events']) % 3 == 0:
+                Early('early')
             src = edzed.Input('src', initdef=0)
             # an event type equal to the configured one but not the same string object (a type
             # that comes from a configuration file or a message)
@@ -56,6 +70,7 @@ class C18(common.Spec):
                                            interval=case['interval2_us'] / 1e6, count=case['count2'])
                     rblocks = [r_first, r_last]
                 ev = edzed.Event(rblocks[0], fresh('ev'))
+            holder['ev'] = ev
             # what every Repeat block receives (wrapper around the instance's event entry point)
             inputs = {b.name: [] for b in rblocks}
             for b in rblocks:
